@@ -29,3 +29,13 @@ MUTANTS["C18"] = [
     ("bad-regex-in-quidway-branch", "annet/rulebook/texts/huawei.rul", "    %if hw.Quidway:", "    %if hw.Quidway:\n    foo */(Vlanif[0-9+/"),
     ("find-true-seq-no-recursion-guard", "annet/annlib/netdev/db.py", "            sequences.update(find_true_sequences(hw_model, meta[\"children\"]))", "        sequences.update(find_true_sequences(hw_model, meta[\"children\"]))"),
 ]
+
+MUTANTS["C12"] = [
+    ("exit-when-pool-empty", "annet/parallel.py", "                if not pool and queue_empty:", "                if not pool:"),
+    ("retired-worker-deleted", "annet/parallel.py", "            if exitcode != 9:\n                del pool[name]", "            if True:\n                del pool[name]"),
+    ("one-stop-token-short", "annet/parallel.py", "            for index in range(pool_size):\n                task_queue.put(PoolWorkerTask(type=PoolWorkerTaskType.STOP))",
+     "            for index in range(pool_size):\n                if index or pool_size < 8:\n                    task_queue.put(PoolWorkerTask(type=PoolWorkerTaskType.STOP))"),
+    ("result-put-after-quota-skipped", "annet/parallel.py", "        done_queue.put((worker_name, task, results, ret_exc))\n\n        tasks_done += 1",
+     "        tasks_done += 1\n        if not (pool.max_tasks and tasks_done > pool.max_tasks):\n            done_queue.put((worker_name, task, results, ret_exc))\n        tasks_done -= 1\n\n        tasks_done += 1"),
+    ("exc-dropped-single-process", "annet/parallel.py", "                    task_result.exc = safe_exc\n                if self.capture_output:", "                    task_result.exc = None\n                if self.capture_output:"),
+]
